@@ -76,6 +76,44 @@ func (e *valEmitter) emit(sch M, j string, ind string, depth int) {
 		e2 := *e
 		_ = e2
 		w2 := func(format string, a ...interface{}) { fmt.Fprintf(e.sb, ind2+format+"\n", a...) }
+		if one := asL(sch["oneOf"]); len(one) > 0 && asS(asM(sch["discriminator"])["propertyName"]) != "" {
+			// discriminated: the discriminator value selects the variant
+			disc := asM(sch["discriminator"])
+			pn := asS(disc["propertyName"])
+			dv := e.fresh("vd")
+			w2("if %s.Kind() != 5 {", j)
+			w2("\treturn false")
+			w2("}")
+			w2("%s, %sok := %s.Get(%q)", dv, dv, j, pn)
+			w2("if !%sok || %s.Kind() != 3 {", dv, dv)
+			w2("\treturn false")
+			w2("}")
+			w2("switch %s.Str() {", dv)
+			keys := map[string]M{}
+			for k, ref := range asM(disc["mapping"]) {
+				keys[k] = M{"$ref": ref}
+			}
+			for _, alt := range one {
+				if r, ok := asM(alt)["$ref"].(string); ok {
+					if _, dup := keys[refName(r)]; !dup {
+						keys[refName(r)] = asM(alt)
+					}
+				}
+			}
+			var ks []string
+			for k := range keys {
+				ks = append(ks, k)
+			}
+			sort.Strings(ks)
+			for _, k := range ks {
+				w2("case %q:", k)
+				e.emit(keys[k], j, ind2+"\t", depth+1)
+			}
+			w2("default:")
+			w2("\treturn false")
+			w2("}")
+			return
+		}
 		if one := asL(sch["oneOf"]); len(one) > 0 {
 			cnt := e.fresh("vcnt")
 			w2("%s := 0", cnt)
